@@ -22,6 +22,9 @@ import Martian.VdrVal
 import Proofs.VdrVal
 import Martian.VdrAll
 import Proofs.VdrAll
+import Proofs.VdrDone
+import Martian.VdrEval
+import Proofs.VdrEval
 
 namespace Props.C04
 open Martian.Vdr
@@ -279,10 +282,82 @@ theorem notfile_value_names_nothing (v : Val) (t : Ty) (hc : conforms v t = true
     v.names = [] :=
   (notFile_names v).1 t hc hf
 
+/-- **delivered_files_are_held.**  With an evaluation semantics of the binding
+expressions (`Delivers`: a reference delivers what any fork of the producer
+produced, a split any element of its source, a merge a collection of values
+of its body, a disabled binding null or its value; literals name nothing):
+every file name in ANY value a resolved input of stage `n` can deliver is a
+file name of what some fork of a node `p` produced for an output `a`, such
+that `n` is registered as a holder of `a` on `p` — or the walk binds `p.a` at
+a type that cannot name files. -/
+theorem delivered_files_are_held (tr : PTree) (w : wfOps [] [] (opsOf tr) = true) (n : Node) (ins : List Binding)
+    (hs : HasStage tr n ins) (b : Binding) (hb : b ∈ ins) (hw : wellTyped b.1 b.2 = true)
+    (env : Env) (v : Val) (hd : Delivers env false b.1 v) (s : String) (hn : s ∈ v.names) :
+    ∃ p a, (∃ x ∈ env p a, s ∈ x.names) ∧
+      ((∃ t, (p, t) ∈ build (opsOf tr) ∧ ∀ disk, Holds (t.st disk) a (some n)) ∨
+       (p, a, false) ∈ typedRefs b.1 b.2) := by
+  obtain ⟨r, hr, x, hx, hsx⟩ := delivers_names hd s hn
+  exact ⟨r.1, r.2, ⟨x, hx, hsx⟩, holders_sound tr w n ins hs b hb hw r.1 r.2 hr⟩
+
+/-- **expanded_fork_safe.**  The moment of dynamic fork expansion: whenever
+in the life of a fork (`evs`) `cloneFork` makes a new fork of it, the new
+fork — with its own files, under every interleaving of its own later events
+`evs'` — never loses an entry referenced by an argument that a holder of the
+clone holds and that is not a completed consumer; and every holder the clone
+has was registered for the original at construction. -/
+theorem expanded_fork_safe (c c' : Cfg) (s0 : St) (evs evs' : List Ev) (disk : List DiskEnt)
+    (ok' : CfgOK c' (cloneFork (run c s0 evs) disk)) (hv' : c'.volatile = true)
+    (ok : CfgOK c s0) (wf : DiskWF s0.disk) (fr : Fresh s0) (h0 : s0.report.count = 0 ∧ s0.report.size = 0)
+    (hv : c.volatile = true) (bk : BK s0) (hf : s0.final = false) :
+    (∀ a h, Holds (cloneFork (run c s0 evs) disk) a h → Holds s0 a h) ∧
+    ∀ d ∈ (run c' (cloneFork (run c s0 evs) disk) evs').removed, isTmp d.kind = false →
+      ∀ a h, Holds (cloneFork (run c s0 evs) disk) a h → refs c' a d.path = true →
+        ∃ n, h = some n ∧ n ∈ (run c' (cloneFork (run c s0 evs) disk) evs').doneNodes := by
+  obtain ⟨_, r⟩ := joint_run ok wf hv (XInv.init s0 fr h0) (RInv.init c s0 fr bk hf) evs
+  refine ⟨?_, ?_⟩
+  · intro a h hh
+    exact r.sh.holds a h ((cloneFork_holds _ disk a h).mp hh)
+  · exact kill_safe c' (cloneFork (run c s0 evs) disk) evs' ok' ⟨rfl, rfl⟩ hv'
+
 /-- `cloneFork` (dynamic fork expansion) hands the new fork the same holder sets. -/
 theorem clone_keeps_holders (s : St) (disk : List DiskEnt) :
     (∀ a h, Holds (cloneFork s disk) a h ↔ Holds s a h) ∧ Fresh (cloneFork s disk) :=
   ⟨fun a h => cloneFork_holds s disk a h, ⟨rfl, rfl⟩⟩
+
+/-! ### consumers that fail and are retried -/
+
+/-- A consumer counts as done only through its completion (`nodeDone`: the
+post node is found Complete or Disabled): no pass of the producer, no failure
+of the consumer (`nodeFailed`) and no reset for a retry (`nodeReset`) adds it
+to the done set `partialVdrKill` consults. -/
+theorem done_only_by_completion (c : Cfg) (s0 : St) (evs : List Ev) :
+    ∀ n ∈ (run c s0 evs).doneNodes, n ∈ s0.doneNodes ∨ Ev.nodeDone n ∈ evs :=
+  run_done c s0 evs
+
+/-- **failed_consumer_keeps_inputs.**  Under every interleaving in which
+consumer `n` has not completed — however often it has failed and been reset
+for a retry in between, and whatever else completed meanwhile — everything
+its argument `a` references is still on disk: the retried job finds its
+files at every launch. -/
+theorem failed_consumer_keeps_inputs (c : Cfg) (s0 : St) (evs : List Ev) (ok : CfgOK c s0) (fr : Fresh s0)
+    (hv : c.volatile = true) (a : Arg) (n : Node) (hh : Holds s0 a (some n))
+    (h0 : n ∉ s0.doneNodes) (hnot : Ev.nodeDone n ∉ evs) :
+    ∀ d ∈ s0.disk, isTmp d.kind = false → refs c a d.path = true → d ∈ (run c s0 evs).disk := by
+  apply args_present_at_start c s0 evs ok fr hv a n hh
+  intro hn
+  rcases run_done c s0 evs n hn with h | h
+  · exact h0 h
+  · exact hnot h
+
+/-- Counting a failed post node as done (the shape of a seeded change) is
+unsafe: had the failure of `C` released its arguments the way a completion
+does, `b`'s file would be gone when `C` is retried; in the model it stays. -/
+theorem failure_is_not_completion :
+    ((run exCfg exSt [.removeEmpty, .cacheMap, .nodeFailed "C", .kill, .nodeReset "C", .kill]).disk.map (·.path) =
+      ["/p/files/a.txt".toList, "/p/files/sub".toList, "/p/files/sub/b.txt".toList]) ∧
+    ((run exCfg exSt [.removeEmpty, .cacheMap, .nodeDone "C", .kill]).disk.map (·.path) =
+      ["/p/files/a.txt".toList]) := by
+  constructor <;> decide
 
 /-! ### the whole pipestance -/
 
@@ -340,6 +415,16 @@ example :
     ((build (opsOf exTree)).lookup "A").map (·.postNodes) = some [("B", ["o"])] ∧
     ((build (opsOf exTree)).lookup "B").map (·.fileArgs) = some [("o", [none])] := by
   refine ⟨by decide, .child (.next .here), .child (.stage (by simp)), by decide, by decide, by decide⟩
+
+/-- delivery: a split of a reference delivers an element of what a fork produced, a merge collects -/
+example :
+    let env : Env := fun n o => if n = "P" ∧ o = "xs" then [.arr (.vcons "" (.str "/p/f1") (.vcons "" (.str "/p/f2") .vnil))] else []
+    Delivers env false (.split false (.ref "P" "xs")) (.str "/p/f2") ∧
+    Delivers env false (.merge (.split false (.ref "P" "xs"))) (.arr (.vcons "" (.str "/p/f1") .vnil)) := by
+  intro env
+  have h : Delivers env false (.ref "P" "xs") (.arr (.vcons "" (.str "/p/f1") (.vcons "" (.str "/p/f2") .vnil))) :=
+    .ref (by simp [env])
+  exact ⟨.splitArr h (.there .here), .mergeArr (.allCons (by decide) (.splitArr h .here) .allNil)⟩
 
 /-- values: names are found in strings and keys at any depth; an `int[]` value names nothing -/
 example :
